@@ -210,6 +210,9 @@ class Natives(object):
             return z3.If(x < 0, 0, z3.If(x > n, n, x))
         a, b = clamp(lo_t), clamp(hi_t)
         ln = z3.If(b > a, b - a, 0)
+        if z3.is_int_value(z3.simplify(a)) and z3.simplify(a).as_long() == 0:
+            # a prefix base[0:k]: same elements at the same positions, shorter length (no lambda term)
+            return V(ty, L_mk(ty, z3.simplify(ln), L_arr(ty, base.t)))
         j = z3.Int('j!slice')
         arr = z3.Lambda([j], z3.Select(L_arr(ty, base.t), j + a))
         return V(ty, L_mk(ty, z3.simplify(ln), arr))
